@@ -19,6 +19,7 @@ def run(check):
     check.guarded("DELETE-KEPT", lambda c: T.rule_delete_kept(c, "DELETE-KEPT", "OperationTransformVisitor"))
     check.guarded("ORDER", X.rule_order)
     check.guarded("GROUP", X.rule_hoist_paren)
+    check.guarded("GROUP", X.rule_synth_operands)
     check.guarded("IDENT-MODE", X.rule_ident_mode)
     check.guarded("PAREN-WRAP", X.rule_paren_wrap)
     check.guarded("FANOUT", X.rule_fanout)
@@ -32,6 +33,11 @@ def run(check):
 
     check.guarded("ARROW-BLOCK", c04.rule_arrow_block)
     check.guarded("FRESH-TEMP", X.rule_fresh_temp)
+    # a temporary stands for one evaluation of one operand: what is pushed for the hook and what is left in
+    # place are that evaluation (a value saved earlier for "the same" identifier is stale once something in
+    # between assigns it), and no operand is listed for the hook from a second copy
+    check.guarded("MIRROR", X.rule_mirror)
+    check.guarded("HOOK-ARGS", X.rule_hook_args_source)
     check.guarded("SPREAD-ONCE", X.rule_spread_once)
     check.guarded("KEPT-IN-PLACE", X.rule_kept_in_place)
     check.guarded("NODE-REBUILD", X.rule_node_rebuild)
